@@ -230,7 +230,7 @@ CURATED = [
 
 # atom states the recorded findings are about (known_findings.d/C05.json), kept so that they stay observed
 FINDING_INPUTS = ['Cp1cccn1', 'C[as]1cccn1', 'C[b-]1(C)cccn1', '[cH-]1cccn1', '[c-]1ccncc1', '[nH+]1ccncc1', '[bH-]1ccncc1', 'c1cpccp1', 'b1cnncn1',
-                  '[se+]1cccnc1', '[te+]1cccnc1', 'c1cnc[as]c1', 'c1cc[as]cc1']
+                  '[se+]1cccnc1', '[te+]1cccnc1', 'c1cnc[as]c1', 'c1cc[as]cc1', '[c+]1ccncc1', '[pH+]1ccncc1', '[asH+]1ccncc1', '[s+]1cnccn1']
 
 # ring systems on which the pyridine-over-pyrrole buffer of _kekule_component decides the result of kekule() (found by
 # comparing the search with a copy whose buffer test is off by one; on the 4200 corpus molecules the buffer never matters)
@@ -640,11 +640,7 @@ class Pipe:
         ve_before = set(m0.check_valence()) if not aromatic_input else {n for n, a in m0._atoms.items()
                                                                        if a.implicit_hydrogens is None and not any(int(bd) == 4 for bd in m0._bonds[n].values())}
         ve = set(k.check_valence()) - ve_before
-        for n in sorted(ve):
-            a = before._atoms[n]
-            self.bad(dom, f'kekule-valence-error:{atom_state(a)}', f'kekule() accepts a ring {a.atomic_symbol} (charge {a.charge:+d}, radical {a.is_radical}, '
-                     f'{a.neighbors} neighbours) and leaves it with a valence error although a valence-clean Kekule form exists (RDKit\'s)', label,
-                     'check_valence() lists the atom', 'no valence error', 'check_valence() of the Kekule result', code, {'atom': n})
+        self.report_valence(before, k, ve, ve_before, dom, label, code)
         hchg = self.h_changes('kekule', before, k, label, code, dom)
         cases.append((f'kekule_rel_x {b(bool(hchg))} {b(bool(ve))} {src} k{i}', ('kekule_rel', 'kekule()', label, list(m0._atoms)), ('kekule', label, code)))
         ck.case(('kekule', tag, label), nontrivial=aromatic_input)
@@ -715,9 +711,16 @@ class Pipe:
         four = unsaturated_4ring(a) or unsaturated_4ring(k)
         why_not = None
         if refused:
-            cands = [n for n in refused if a._atoms[n].atomic_number != 6] or refused
-            c_ = max(cands, key=lambda n: (before._atoms[n].neighbors, before._atoms[n].atomic_number))
-            why_not = f'not-rearomatised:{before._atoms[c_].atomic_symbol}'
+            # by the mechanism in Thiele.thiele: (i) an element outside its first filter (C N O S B P); (ii) a ring atom with
+            # more than three neighbours; anything else is not a recorded mechanism
+            foreign = sorted({before._atoms[n].atomic_number for n in refused} - {5, 6, 7, 8, 15, 16})
+            crowded = sorted({before._atoms[n].atomic_symbol for n in refused if before._atoms[n].neighbors > 3})
+            if foreign:
+                why_not = 'not-rearomatised:' + next(at.atomic_symbol for at in before._atoms.values() if at.atomic_number == foreign[-1])
+            elif crowded:
+                why_not = f'not-rearomatised:more-than-three-neighbours:{crowded[-1]}'
+            else:
+                why_not = f'not-rearomatised:other:{label}'
         self.why_not = why_not
         # fixpoint of thiele . kekule
         x = a.copy()
@@ -726,6 +729,11 @@ class Pipe:
             x.kekule()
             kx = x.copy()
             x.thiele()
+            vre = {n for n in kx.check_valence() if a._atoms[n].implicit_hydrogens is not None}
+            if vre and clean:
+                # the second kekule() picked a form with a valence error although the first one was clean: the valence mechanism
+                self.report_valence(a, kx, vre, set(), True, label, code_of('m.kekule(); m.thiele(); print(m); m.kekule(); print(m, m.check_valence())'))
+                clean = False
             if snap(x) != snap(a):
                 self.cmp_bad(clean, why_not, four, f'thiele-kekule-fixpoint:{smi}', 'thiele(kekule(A)) differs from the aromatic form A = thiele(kekule(m))', label, str(x), sa,
                              'snapshot equality', code_of('m.kekule(); m.thiele(); print(m); m.kekule(); m.thiele(); print(m)'))
@@ -804,6 +812,41 @@ class Pipe:
                 self.ck.case(('search', label, tuple(m0._atoms), bs, tuple(rings)), nontrivial=bool(ys))
                 self.ck.count(f'search: buffer={bs}: {"InvalidAromaticRing" if raised else str(len(ys)) + " form(s) compared"}')
 
+    def report_valence(self, src, res, ve, ve_before, dom, label, code):
+        """valence errors of a Kekule result `res` of `src`, keyed by mechanism"""
+        from chython.exceptions import InvalidAromaticRing
+        if not ve:
+            return
+        other_clean = False
+        rings, pyr = {}, set()
+        if dom:
+            # mechanism: kekule() returns the first form of the search without consulting the valence rules; is another
+            # enumerated form (same given hydrogens) valence-clean on the ring atoms?
+            try:
+                rings, pyr, _ = src.copy()._Kekule__prepare_rings()
+                for f in itertools.islice(src.copy().enumerate_kekule(), 48):
+                    if not (set(f.check_valence()) - ve_before) and all(at.implicit_hydrogens is None or f._atoms[q].implicit_hydrogens == at.implicit_hydrogens
+                                                                         for q, at in src._atoms.items()):
+                        other_clean = True
+                        break
+            except InvalidAromaticRing:
+                pass
+        for n in sorted(ve):
+            a = src._atoms[n]
+            if dom and n in pyr and any(int(bd) == 2 and q in rings.get(n, ()) for q, bd in res._bonds[n].items()):
+                key = f'kekule-valence-error:pyrroles-class-atom-given-a-ring-double-bond:{a.atomic_symbol}{a.charge:+d}:neighbors={a.neighbors}'
+                what = (f'__prepare_rings puts ring {a.atomic_symbol} (charge {a.charge:+d}, {a.neighbors} neighbours) into `pyrroles` (double bond or not), the search gives '
+                        'it a ring double bond and the valence rules reject that: kekule() returns a form with a valence error')
+            elif dom and other_clean:
+                key = f'kekule-valence-error:another-enumerated-form-is-clean:{a.atomic_symbol}{a.charge:+d}'
+                what = (f'kekule() returns a form that leaves ring {a.atomic_symbol} (charge {a.charge:+d}, {a.neighbors} neighbours) with a valence error although another '
+                        'form of enumerate_kekule() is valence-clean (kekule() takes the first form of the search, the valence rules are not consulted)')
+            else:
+                key = f'kekule-valence-error:no-clean-form:{atom_state(a)}'
+                what = (f'kekule() accepts a ring {a.atomic_symbol} (charge {a.charge:+d}, radical {a.is_radical}, {a.neighbors} neighbours) and leaves it with a valence '
+                        'error in every enumerated form although a valence-clean Kekule form exists (RDKit\'s)')
+            self.bad(dom, key, what, label, 'check_valence() lists the atom', 'no valence error', 'check_valence() of the Kekule result', code, {'atom': n})
+
     def repaired(self, m, name, rname):
         """the Coq term of the molecule the relation starts from: rings __prepare_rings completes (single / double bonds
         inside an aromatic skeleton, e.g. the four-membered ring of biphenylene) are written aromatic first"""
@@ -858,7 +901,7 @@ class Pipe:
                                  '(another molecule, another formula)', label, {'form': str(f), 'H': hf}, {'kekule()': str(k), 'H': hk},
                                  'hydrogen counts of each enumerated form against those of kekule()', fcode, {'atom': n})
                     elif at.implicit_hydrogens is not None and at.implicit_hydrogens != h2 and h2 is not None:
-                        self.bad(clean, f'kekule-changes-given-H:{at.atomic_symbol}{at.charge:+d}:neighbors={at.neighbors}:{at.implicit_hydrogens}->{h2}',
+                        self.bad(clean, f'kekule-changes-given-H:{at.atomic_symbol}{at.charge:+d}:neighbors={at.neighbors}',
                                  f'kekule() / enumerate_kekule() changes a given hydrogen count: ring {at.atomic_symbol} charge {at.charge:+d} with {at.neighbors} neighbours '
                                  f'{at.implicit_hydrogens} -> {h2} H', label,
                                  {'form': str(f), 'H': hf}, {'kekule()': str(k), 'H': hk}, 'hydrogen counts of each enumerated form', fcode, {'atom': n})
@@ -892,7 +935,7 @@ class Pipe:
             if which == 'kekule':
                 if a1.implicit_hydrogens is None:
                     continue        # that is the valence error, reported under its own key
-                key = f'kekule-changes-given-H:{a0.atomic_symbol}{a0.charge:+d}:neighbors={a0.neighbors}:{a0.implicit_hydrogens}->{a1.implicit_hydrogens}'
+                key = f'kekule-changes-given-H:{a0.atomic_symbol}{a0.charge:+d}:neighbors={a0.neighbors}'
                 what = (f'kekule() / enumerate_kekule() changes a given hydrogen count: ring {a0.atomic_symbol} charge {a0.charge:+d} with {a0.neighbors} neighbours '
                         f'{a0.implicit_hydrogens} -> {a1.implicit_hydrogens} H')
             else:
